@@ -144,10 +144,10 @@ func TestVerifC06(t *testing.T) {
 	pushes := func() int { vip.mu.Lock(); defer vip.mu.Unlock(); return vip.Calls["pushstart"] }
 	allCanaries := []string{canary["alice"], canary["bob"], canary["root1"]}
 	methods := []string{"GET", "POST"}
-	origins := []string{"none", "cross-origin", "null-origin", "cross-referer", "sibling-origin"}
+	origins := []string{"none", "cross-origin", "null-origin", "cross-referer", "sibling-origin", "relying-party-origin"}
 	if verifThorough() {
 		methods = []string{"GET", "POST", "PUT", "DELETE", "HEAD"}
-		origins = []string{"none", "same-site", "cross-origin", "cross-referer", "null-origin", "malformed-origin", "sibling-origin", "sibling-origin-2", "sibling-referer"}
+		origins = []string{"none", "same-site", "cross-origin", "cross-referer", "null-origin", "malformed-origin", "sibling-origin", "sibling-origin-2", "sibling-referer", "relying-party-origin", "relying-party-referer"}
 	}
 	trust, _ := verifPublishedTrust(env)
 	probe := func(tg target, cred verifCred, method, origin string) {
@@ -186,6 +186,12 @@ func TestVerifC06(t *testing.T) {
 			q.Header["Origin"] = "https://" + verifHostIdentity + "4" + verifHTTPAddress
 		case "sibling-referer":
 			q.Header["Referer"] = "https://" + verifHostIdentity + ":334/page"
+		case "relying-party-origin":
+			// a web application registered as an OpenID Connect client (its domain is in allowed_redirect_domains):
+			// trusted to receive codes, it is still another site
+			q.Header["Origin"] = "https://app.example.com"
+		case "relying-party-referer":
+			q.Header["Referer"] = "https://login.app.example.com/start"
 		case "malformed-origin":
 			q.Header["Origin"] = "https://evil.example:bad port/"
 		}
@@ -223,7 +229,7 @@ func TestVerifC06(t *testing.T) {
 			eff = append(eff, "push-transaction-started")
 		}
 		cs := c06Case{Route: tg.route, Path: tg.path, Method: method, Origin: origin, Cred: cred.Name, Class: class, Status: resp.Code, Effects: eff}
-		crossSite := origin == "cross-origin" || origin == "cross-referer" || origin == "null-origin" || strings.HasPrefix(origin, "sibling-")
+		crossSite := origin == "cross-origin" || origin == "cross-referer" || origin == "null-origin" || strings.HasPrefix(origin, "sibling-") || strings.HasPrefix(origin, "relying-party-")
 		// ---- which rule applies
 		rule := ""
 		switch {
@@ -291,7 +297,7 @@ func TestVerifC06(t *testing.T) {
 					if !verifThorough() && o != "none" && !ambient && (o != "cross-origin" || (len(tg.path)+len(cred.Name))%4 != 0) {
 						continue // quick: cross-site matters for valid cookies and client certificates; sample the rest
 					}
-					if !verifThorough() && (o == "null-origin" || o == "cross-referer" || o == "sibling-origin") && m == "GET" {
+					if !verifThorough() && (o == "null-origin" || o == "cross-referer" || o == "sibling-origin" || o == "relying-party-origin") && m == "GET" {
 						continue
 					}
 					probe(tg, cred, m, o)
